@@ -900,4 +900,129 @@ example :
     = ([("GDP", "Y"), ("OUT", "Y")], .elem (.i 2), .array [3] [.i 10, .i 9, .i 30], .raised .key, .raised .key) := by
   decide
 
+/-! ## Non-vacuity (review): every hypothesis-carrying theorem instantiated at a concrete non-trivial instance
+
+`exX`: span label classes `[0, 1, 2, 3]` (list span), int variable `X = [10, 20, 30, 40]`, int variable `Y = 0`. -/
+
+section Review
+
+private def exX : Store := run Cfg.shipped (init [0, 1, 2, 3] .seq false)
+  [.addVariable "X" (.list [.i 10, .i 20, .i 30, .i 40]) none, .addVariable "Y" (.scalar (.i 0)) none]
+private def serX : Series := ⟨i8, [4], [.i 10, .i 20, .i 30, .i 40]⟩
+private theorem exX_get : exX.get "X" = some serX := by decide
+private theorem serX_wf : serX.wf exX.n := by decide
+private theorem exX_loc2 : locate exX 2 = .pos 2 := by decide
+private theorem exX_loc0 : locate exX 0 = .pos 0 := by decide
+private theorem exX_conv : conv serX.dtype (.i 7) = .ok (.i 7) := by rfl
+private def exNp : Store := init [5, 6, 6, 7] .numpy false
+
+/-- `pySlice_spec` (step 3) and the four cases of `clamp_spec`. -/
+example : ∀ i, i ∈ pySlice 10 (some 2) (some 9) 3 ↔
+    sliceLo 10 (some 2) ≤ i ∧ i < sliceHi 10 (some 9) ∧ (i - sliceLo 10 (some 2)) % 3 = 0 :=
+  (pySlice_spec 10 (some 2) (some 9) (st := 3) (by decide)).1
+example : clampPos 10 4 = 4 ∧ clampPos 10 100 = 10 ∧ clampPos 10 (-3) = 7 ∧ clampPos 10 (-100) = 0 :=
+  ⟨(clamp_spec 10 4).1 (by decide) (by decide), (clamp_spec 10 100).2.1 (by decide),
+   (clamp_spec 10 (-3)).2.2.1 (by decide) (by decide), (clamp_spec 10 (-100)).2.2.2 (by decide)⟩
+
+/-- `locate_seq_*`, `locate_numpy`, `locate_lt`. -/
+example : locate exX 2 = .pos 2 := (locate_seq_pos (s := exX) rfl 2 2).2 (by decide)
+example : locate exX 9 = .missing := (locate_seq_missing (s := exX) rfl 9).2 (by decide)
+example : locate exX 3 = .pos 3 := locate_seq_nodup (s := exX) rfl (by decide) (k := 3) (p := 3) rfl
+example : locate exNp 7 = .pos 3 ∧ locate exNp 9 = .missing :=
+  ⟨((locate_numpy (s := exNp) rfl 7).1 3).2 (by decide), (locate_numpy (s := exNp) rfl 9).2 (by decide)⟩
+example : ¬ ∃ p, locate exNp 6 = .pos p :=
+  fun ⟨p, h⟩ => absurd (((locate_numpy (s := exNp) rfl 6).1 p).1 h).1 (by decide)
+example : 2 < exX.n := locate_lt (s := exX) (by decide) exX_loc2
+
+/-- `access_depends_only_on_span`: `exX` against the same span with no variables at all. -/
+example : ∀ k, locate (init [0, 1, 2, 3] .seq true) k = locate exX k :=
+  (access_depends_only_on_span (s := exX) (s' := init [0, 1, 2, 3] .seq true) (by decide) (by decide) (by decide)).1
+
+/-- `label_get`, `label_set`, `label_set_frame` at label 2 of `X`. -/
+example : getLabel exX "X" 2 = .elem (.i 30) := label_get exX_get serX_wf exX_loc2 (by decide)
+example : step Cfg.shipped exX (.setLabel "X" 2 (.scalar (.i 7))) =
+    (exX.put "X" { serX with data := setAt serX.data 2 (.i 7) }, .ok) :=
+  label_set exX_get serX_wf exX_loc2 (by decide) exX_conv
+example : (step Cfg.shipped exX (.setLabel "X" 2 (.scalar (.i 7)))).1.get "Y" = exX.get "Y" :=
+  (label_set_frame (cfg := Cfg.shipped) exX_get serX_wf exX_loc2 (by decide) exX_conv).1 "Y" (by decide)
+
+/-- `missing_label_keyerror` / `missing_label_keyerror_seq` at the absent label class 9. -/
+example : getLabel exX "X" 9 = .raised .key ∧ step Cfg.shipped exX (.setLabel "X" 9 (.scalar (.i 1))) = (exX, .raised .key) :=
+  ⟨(missing_label_keyerror (cfg := Cfg.shipped) (s := exX) (k := 9) (by decide) "X" (.scalar (.i 1))).1,
+   (missing_label_keyerror (cfg := Cfg.shipped) (s := exX) (k := 9) (by decide) "X" (.scalar (.i 1))).2.1⟩
+example : getLabelSlice exX "X" (some 1) (some 9) none = .raised .key :=
+  (missing_label_keyerror (cfg := Cfg.shipped) (s := exX) (k := 9) (by decide) "X" (.scalar (.i 1))).2.2.2.2.1 1 none
+    (by decide)
+example : getLabel exX "X" 9 = .raised .key ∧ step Cfg.shipped exX (.setLabel "X" 9 (.scalar (.i 1))) = (exX, .raised .key) :=
+  missing_label_keyerror_seq (cfg := Cfg.shipped) (s := exX) rfl (by decide) "X" (.scalar (.i 1))
+
+/-- `label_slice_positions` (`0:2:2` → positions 0, 2), `label_slice_open_ends`, `label_slice_get`, `label_slice_set`. -/
+example : labelSlicePositions exX (some 0) (some 2) (some ((2 : Nat) : Int)) =
+    .ok (pySlice exX.n (some ((0 : Nat) : Int)) (some ((2 + 1 : Nat) : Int)) 2) :=
+  (label_slice_positions exX_loc0 exX_loc2 (by decide) (by decide) (st := 2) (by decide)).1
+example : pySlice exX.n (some 0) (some 3) 2 = [0, 2] := by decide
+example : resolveSlice exX none none (some 2) = .ok (0, exX.n, 2) :=
+  label_slice_open_ends (s := exX) rfl (by decide) (by decide) (some 2)
+example : getLabelSlice exX "X" (some 0) (some 2) (some 2) = .array [[0, 2].length] ([0, 2].map (pick serX.data)) :=
+  label_slice_get exX_get serX_wf (ps := [0, 2]) (by rfl)
+example : step Cfg.shipped exX (.setLabelSlice "X" (some 0) (some 2) (some 2) (.scalar (.i 7))) =
+    (exX.put "X" { serX with data := writeRaw serX.data ([0, 2].map fun k => (k, Val.i 7)) }, .ok) :=
+  label_slice_set exX_get serX_wf (ps := [0, 2]) (by rfl) exX_conv
+
+/-- The access paths: reads, attribute path, the four write theorems. -/
+example : getItem exX "X" = .array [exX.n] serX.data ∧ getPos exX "X" ((2 : Nat) : Int) = .elem (pick serX.data 2) ∧
+    getLabel exX "X" 2 = .elem (pick serX.data 2) ∧
+    getLabelSlice exX "X" (some 2) (some 2) none = .array [1] [pick serX.data 2] :=
+  access_paths_agree_reads exX_get serX_wf exX_loc2 (by decide)
+example : getAttr exX "X" = getItem exX "X" :=
+  access_paths_agree_attribute_partial (s := exX) (by decide) (by decide)
+example : getLabel (step Cfg.shipped exX (.setLabel "X" 2 (.scalar (.i 7)))).1 "X" 2 = .elem (.i 7) :=
+  (access_paths_agree_label_write (cfg := Cfg.shipped) exX_get serX_wf exX_loc2 (by decide) exX_conv).1
+example : getLabel (step Cfg.shipped exX (.setPos "X" (-2) (.scalar (.i 7)))).1 "X" 2 = .elem (.i 7) :=
+  (access_paths_agree_pos_write (cfg := Cfg.shipped) exX_get serX_wf exX_loc2 (by decide) (i := -2) (by decide) exX_conv).2
+example : getLabel (step Cfg.shipped exX (.setItem "X" (.scalar (.i 7)))).1 "X" 2 = .elem (.i 7) :=
+  (access_paths_agree_whole_write (cfg := Cfg.shipped) exX_get serX_wf exX_loc2 (by decide) exX_conv).2.1
+example : getPos (step Cfg.shipped exX (.setLabelSlice "X" (some 0) (some 2) (some 2) (.scalar (.i 7)))).1 "X" ((1 : Nat) : Int) =
+    .elem (if 1 ∈ [0, 2] then Val.i 7 else pick serX.data 1) :=
+  access_paths_agree_slice_write (cfg := Cfg.shipped) exX_get serX_wf (ps := [0, 2]) (by rfl) exX_conv (j := 1) (by decide)
+
+/-- `add_variable_refuses_attribute_name`, `no_shadow_step`, `no_shadow_history`, `access_paths_agree_attribute` under
+    the configuration of the tree under test (`Cfg.current.addVarChecksAttrs` holds). -/
+example : Cfg.current.addVarChecksAttrs = true := by decide
+example : step Cfg.current (step Cfg.current (init [0, 1, 2] .seq false) (.setAttr "P" (.scalar (.i 5)) [])).1
+      (.addVariable "P" (.scalar (.i 1)) none) =
+    ((step Cfg.current (init [0, 1, 2] .seq false) (.setAttr "P" (.scalar (.i 5)) [])).1, .raised .duplicateName) :=
+  add_variable_refuses_attribute_name (cfg := Cfg.current) (by decide) (by decide) _ _
+private def exHist : List Op :=
+  [.setAttr "P" (.scalar (.i 5)) [], .addVariable "P" (.scalar (.i 1)) none, .addVariable "Q" (.scalar (.i 1)) none,
+   .setAttr "P" (.scalar (.i 7)) []]
+example : NoShadow (step Cfg.current (run Cfg.current (init [0, 1, 2] .seq false) exHist) (.addAttribute "Q")).1 :=
+  no_shadow_step (cfg := Cfg.current) (by decide)
+    (no_shadow_history (cfg := Cfg.current) (by decide) (no_shadow_init _ _ _) exHist) _
+example : getAttr (run Cfg.current (init [0, 1, 2] .seq false) exHist) "Q" =
+    getItem (run Cfg.current (init [0, 1, 2] .seq false) exHist) "Q" :=
+  access_paths_agree_attribute (no_shadow_history (cfg := Cfg.current) (by decide) (no_shadow_init _ _ _) exHist) (by decide)
+
+/-- `write_touches_only_target`: a label-slice write to `X` leaves `Y` alone; `access_defined_on_index` off the index. -/
+example : (step Cfg.shipped exX (.setLabelSlice "X" (some 0) (some 2) none (.scalar (.i 7)))).1.get "Y" = exX.get "Y" :=
+  write_touches_only_target (cfg := Cfg.shipped) exX (op := .setLabelSlice "X" (some 0) (some 2) none (.scalar (.i 7)))
+    (name := "X") rfl (other := "Y") (by decide)
+example : getLabel exX "nope" 2 = .raised .key :=
+  ((access_defined_on_index (cfg := Cfg.shipped) exX "nope").2.2.1 (by decide) 2 none none none 0 (.scalar (.i 1))).1
+
+/-- The alias layer: `ALIASES = {'GDP': 'X', 'OUT': 'GDP'}` over `exX`. -/
+private def exAl : Alias.AMap Name := aliasesOf [("GDP", "X"), ("OUT", "GDP")]
+private theorem exAl_out : resolveName exAl "OUT" = "X" := by decide
+example : aGetLabel exAl exX "OUT" 2 = .elem (pick serX.data 2) :=
+  alias_label_get exAl (a := "OUT") (by rw [exAl_out]; exact exX_get) serX_wf exX_loc2 (by decide)
+example : aStep Cfg.shipped exAl exX (.setLabel "OUT" 2 (.scalar (.i 7))) =
+    (exX.put (resolveName exAl "OUT") { serX with data := setAt serX.data 2 (.i 7) }, .ok) :=
+  alias_label_set exAl (a := "OUT") (by rw [exAl_out]; exact exX_get) serX_wf exX_loc2 (by decide) exX_conv
+example : aGetLabel exAl exX "OUT" 9 = .raised .key :=
+  (alias_missing_label_keyerror (cfg := Cfg.shipped) exAl (s := exX) (k := 9) (by decide) "OUT" (.scalar (.i 1))).1
+example : aGetItem exAl exX "OUT" = aGetItem exAl exX "GDP" :=
+  (alias_paths_agree (cfg := Cfg.shipped) exAl exX (a := "OUT") (b := "GDP") (by decide)).1
+
+end Review
+
 end Fsic.C10
